@@ -559,7 +559,7 @@ fn run_script_case(ws: &[&str]) -> (String, String) {
     // the command that sent the signal, sees that command's `$?`, and `$?` is the same afterwards
     let t = format!(":{}", enc_str("T"));
     let n_t = trace.iter().filter(|l| l.ends_with(&t)).count();
-    let probes_before = (k + 1) / 2; // probes among the first k commands
+    let probes_before = k / 2; // probes among the first k commands (odd positions)
     let oracle = if o.stuck {
         "FAIL:stuck".to_string()
     } else if !injected {
